@@ -119,3 +119,20 @@ Definition obs_sock (chunked:bool) (tbl:list (blob*blob)) (ev:list (option blob)
 Definition obs_dechunk (tbl:list (blob*blob)) (seg:bytes) : obs :=
   let dz := dz_of (map (fun kv => (unpack (fst kv), unpack (snd kv))) tbl) in
   (match dechunk dz seg with DOk c p => x00 :: ser_bytes c ++ ser_bytes p | DUnm => [x09] end, []).
+
+(* ---- the spec ENCODER (Spec/Encoder.v) evaluated on the raw field values the Python reference encoder used:
+        validates the Coq spec against the independent encoder and the implementation, on the real tables ---- *)
+From PyRtcm Require Spec.Encoder.
+Definition obs_encoder (T:tables) (lbl:Z) (ident:bytes) (vals:list N) : obs :=
+  let id := str_of_bytes ident in
+  match get_dict T id with
+  | None => ([x0b], [])
+  | Some b =>
+      match Encoder.lay_out T id (negb (lbl =? 2)%Z) b vals with
+      | None => ([x0c], [])
+      | Some (bitsl, a, rest) =>
+          let pad := repeat false ((8 - List.length bitsl mod 8) mod 8) in
+          let '(ab, fl) := ser_attrs (Encoder.public a) in
+          (x00 :: ser_bytes (Encoder.pack (bitsl ++ pad)) ++ ser_n 2 (N.of_nat (List.length rest)) ++ ab, fl)
+      end
+  end.
